@@ -38,9 +38,9 @@ def generate(rng, cfg: Dict) -> Dict:
     ops: List[list] = []
     for _ in range(c.int(1, 10)):
         if kind == "list":
-            k = c.weighted([("assign", 3), ("self_assign", 2), ("iadd", 2.5), ("append", 3), ("extend", 2), ("insert", 2), ("setitem", 2), ("gc", 0.4), ("sweep", 0.4)])
+            k = c.weighted([("assign", 3), ("self_assign", 2), ("iadd", 2.5), ("append", 3), ("extend", 2), ("insert", 2), ("setitem", 2), ("setslice", 1.5), ("gc", 0.4), ("sweep", 0.4), ("retire", 1.0), ("create_elem", 1.0)])
         else:
-            k = c.weighted([("assign", 3), ("self_assign", 2), ("ior", 2.5), ("add", 3), ("update", 2), ("gc", 0.4), ("sweep", 0.4)])
+            k = c.weighted([("assign", 3), ("self_assign", 2), ("ior", 2.5), ("add", 3), ("update", 2), ("gc", 0.4), ("sweep", 0.4), ("retire", 0.8), ("create_elem", 0.8)])
         if k in ("assign", "iadd", "extend", "ior", "update"):
             # Python accepts any iterable for extend / update / += and any set-like for |=
             arg = c.weighted([("same", 5), ("tuple", 1), ("generator", 2), ("iterator", 1), ("other", 1)]) if k in ("extend", "update", "iadd") else "same"
@@ -48,7 +48,15 @@ def generate(rng, cfg: Dict) -> Dict:
         elif k in ("append", "add"):
             ops.append([k, c.pick(elems)])
         elif k in ("insert", "setitem"):
-            ops.append([k, c.int(0, 5), c.pick(elems)])
+            ops.append([k, c.int(-4, 6), c.pick(elems)])
+        elif k == "setslice":
+            ops.append([k, c.int(0, 4), c.int(0, 5), some(0, 3)])
+        elif k == "retire":
+            ops.append([k, c.pick(elems)])
+        elif k == "create_elem":
+            new_serial = 10 + len(elems)
+            elems.append(new_serial)
+            ops.append([k, new_serial])
         else:
             ops.append([k])
     return {"property": "C16", "machine": "onto_sim", "salt": c.int(0, 1 << 30), "kind": kind, "population": population, "owner": owner, "initial": initial, "ops": ops}
@@ -94,6 +102,7 @@ def execute(scenario: Dict) -> Dict:
         return result(log, counters, verdicts, False, 0)
     model = list(initial) if kind == "list" else set(initial)
     ever = set(initial)
+    retired = set()
     nontrivial = False
 
     def check(op_name, n):
@@ -109,7 +118,8 @@ def execute(scenario: Dict) -> Dict:
                 verdicts.append(kernel.verdict("C16.content", f"after op {n} ({op_name}) the set field holds {sorted(got)}, Python semantics give {sorted(model)}", op=op_name, kind=kind, aspect="content"))
                 return False
         expected = closure({(owner_serial, prop, e) for e in ever}, pop.cls_of, pop.taker_of)
-        gset = set(pop.graph_facts())
+        # relations of retired (collected) elements are not judged: the graph drops them at its next sweep
+        gset = {f for f in pop.graph_facts() if "dead" not in (f[0], f[2]) and f[0] not in retired and f[2] not in retired}
         if gset != expected:
             missing = sorted(expected - gset, key=str)
             extra = sorted(gset - expected, key=str)
@@ -136,7 +146,25 @@ def execute(scenario: Dict) -> Dict:
                     SymbolGraph().remove_dead_instances()
                     counters.inc("fault.sweep")
                 continue
-            if (kind == "list" and k in ("ior", "add", "update")) or (kind == "set" and k in ("iadd", "append", "extend", "insert", "setitem")):
+            if k == "create_elem":
+                # a new element object appears (possibly at the address of a retired one)
+                if pop.create([tgt["elem_cls"], op[1]]) is not None:
+                    counters.inc("fault.element_created")
+                continue
+            if k == "retire":
+                # an element that is not in the field any more is forgotten by the program and collected
+                e = op[1]
+                if e in pop.objs and e not in model:
+                    del pop.objs[e]
+                    pop.cls_of.pop(e, None)
+                    ever.discard(e)
+                    retired.add(e)
+                    gc.collect()
+                    counters.inc("fault.element_retired")
+                else:
+                    counters.inc("ops_skipped")
+                continue
+            if (kind == "list" and k in ("ior", "add", "update")) or (kind == "set" and k in ("iadd", "append", "extend", "insert", "setitem", "setslice")):
                 counters.inc("ops_skipped")
                 continue
             counters.inc("fault.write_path." + k)
@@ -191,11 +219,18 @@ def execute(scenario: Dict) -> Dict:
                     getattr(owner, field).insert(op[1], pop.objs[op[2]])
                     model.insert(op[1], op[2])
                     ever.add(op[2])
+                elif k == "setslice":
+                    vals = [x for x in op[3] if x in pop.objs]
+                    i, j = op[1], op[2]
+                    getattr(owner, field)[i:j] = objs(vals)
+                    model[i:j] = vals
+                    ever.update(vals)
+                    nontrivial = True
                 elif k == "setitem":
                     if op[2] not in pop.objs or not model:
                         counters.inc("ops_skipped")
                         continue
-                    i = op[1] % len(model)
+                    i = op[1] if -len(model) <= op[1] < len(model) else op[1] % len(model)
                     getattr(owner, field)[i] = pop.objs[op[2]]
                     model[i] = op[2]
                     ever.add(op[2])
